@@ -153,6 +153,12 @@ def run(chk, tier, replay=None):
         ("screen_content_mode=1;intrabc_mode=1", True, "intrabc needs screen content", "Docs/Appendix-Intra-Block-Copy.md: 'enabled only when screen content is'"),
         ("screen_content_mode=0;intrabc_mode=1", False, "intrabc needs screen content", "Docs/Appendix-Intra-Block-Copy.md"),
     ]
+    # pairs of individually documented tile values whose product stays within AV1's 128-tile limit
+    for r_ in range(0, 7):
+        for c_ in range(0, 5):
+            if r_ + c_ <= 7 and (r_, c_) != (0, 0):
+                cross.append(("source_width=1280;source_height=720;tile_rows=%d;tile_columns=%d" % (r_, c_), True,
+                              "tile_rows x tile_columns", G + " TileRow [0-6], TileCol [0-6]; 2^(rows+cols) <= 128 tiles"))
     for ln, valid, name, cite in cross:
         lines.append(ln)
         meta.append(("cross:" + name, ln, cite, valid, "cross"))
